@@ -74,6 +74,9 @@ ALL_FINAL_SEQS = gen.RESOLVER_SEQS + gen.PLAIN_SEQS + [
     [gen.op_multi(4), gen.op_pflood(), gen.op_single()],
     [gen.op_single(), gen.op_mst("kruskal", "basic"), gen.op_multi(4)],
     [gen.op_pflood(), gen.op_single(), gen.op_mst("boruvka", "basic"), gen.op_multi(8)],
+    # very large slope exponents (64, 150): weights of gentle receivers underflow to exactly zero
+    [gen.op_multi(256)],
+    [gen.op_pflood(), gen.op_multi(600)],
 ]
 
 
@@ -85,7 +88,9 @@ def router_cases(seed, count, max_side, tag, multi=False):
         g = gen.rand_grid(rng, max_side=max_side, kinds=("raster", "raster", "raster", "profile", "mesh"),
                           spacings=(1, 1, 2, 3, 5))
         n = gen.grid_size(g)
-        fam = rng.choice(["tied", "tied3", "distinct", "wide", "bowl", "sub", "huge", "neg", "flat"])
+        fam = rng.choice(["tied", "tied3", "distinct", "wide", "bowl", "sub", "huge", "neg", "flat", "cliff"])
+        if multi and g["t"] in ("raster", "profile") and rng.random() < 0.35:
+            g["sc"] = rng.choice([-10, -7, 9, 12])      # spacings of 1/1024 .. 4096 (times the integer spacing)
         if fam == "wide":
             z = dict(k="int", m=[rng.randint(0, 16 if multi else 4000) for _ in range(n)], e=rng.choice([0, -20, 30]))
         else:
@@ -93,7 +98,7 @@ def router_cases(seed, count, max_side, tag, multi=False):
         mask, bl = gen.rand_mask_bl(rng, g)
         steps = []
         if multi:
-            seqs = [[gen.op_multi(rng.choice([0, 4, 8]))], [gen.op_pflood(), gen.op_multi(4)],
+            seqs = [[gen.op_multi(rng.choice([0, 4, 8, 256, 600, 10000]))], [gen.op_pflood(), gen.op_multi(rng.choice([4, 4, 600]))],
                     [gen.op_single(), gen.op_mst("kruskal", "carve"), gen.op_multi(rng.choice([0, 4, 8, 120]))]]
         else:
             seqs = [[gen.op_single()], [gen.op_pflood(), gen.op_single()]]
@@ -108,7 +113,7 @@ def router_cases(seed, count, max_side, tag, multi=False):
             if multi:
                 # the exponent is changed between successive updates on the same graph object
                 midx = [j for j, o in enumerate(ops) if o["k"] == "multi"][0]
-                for p in rng.sample([0, 4, 8, 6, 120], 2):
+                for p in rng.sample([0, 4, 8, 6, 120, 600, 10000], 2):
                     steps.append(dict(op="param", g=k, i=midx, p=p))
                     steps.append(dict(op="update", g=k, z=z))
             steps.append(dict(op="drop", g=k))
@@ -124,6 +129,10 @@ def state_cases(seed, count, max_side, tag, extra="none"):
         n = gen.grid_size(g)
         z2 = gen.rand_field(rng, g)
         seqs = rng.sample(ALL_FINAL_SEQS, 6)
+        if rng.random() < 0.2:
+            # plateau-and-cliff relief under very large slope exponents: receivers with zero weight
+            z = gen.rand_field(rng, g, "cliff")
+            seqs = seqs[:4] + [[gen.op_multi(rng.choice([256, 600]))], [gen.op_pflood(), gen.op_multi(600)]]
         steps = []
         for k, ops in enumerate(seqs):
             single = all(o["k"] != "multi" for o in ops)
